@@ -7,10 +7,16 @@ package main
 
 import (
 	"bytes"
+	"context"
 	"errors"
 	"fmt"
 	"os"
+	"sync"
 	"time"
+
+	"github.com/go-gl/glfw/v3.1/glfw"
+	"github.com/gordonklaus/portaudio"
+	"github.com/scottyw/tetromino/gameboy"
 
 	"verif/internal/emu"
 	"verif/internal/prog"
@@ -118,5 +124,79 @@ func afterShutdown(c *rig.Ctx) {
 		}
 		c.Count("after_shutdown_cases", 1)
 		c.Case(rig.Hash(uint64(i), quiet.Hash, loud.Hash))
+	})
+}
+
+// audioPair: two instances with sound output enabled at the same time. Each must have its own
+// output stream, and what its stream plays must be what it plays when it is the only instance.
+func audioPair(c *rig.Ctx) {
+	c.Require("audio_pair_cases")
+	c.Part("audio-pair", c.N(8, 64), func(i int64, r *rig.Rng) {
+		pa, pb := prog.Sound(r), prog.Sound(r)
+		if i%2 == 1 {
+			pb = prog.LCDOffLoop() // a silent neighbour
+		}
+		paths := []string{emu.TempROM(pa.ROM, "c25a"), emu.TempROM(pb.ROM, "c25b")}
+		defer os.Remove(paths[0])
+		defer os.Remove(paths[1])
+		frames := 3 + r.Intn(3)
+		run := func(which []int) map[int][]float32 {
+			glfw.XReset()
+			portaudio.XReset()
+			var mu sync.Mutex
+			rec := map[*portaudio.Stream][]float32{}
+			portaudio.SinkS = func(s *portaudio.Stream, n int64, buf []float32) {
+				mu.Lock()
+				rec[s] = append(rec[s], buf...)
+				mu.Unlock()
+			}
+			gbs := map[int]*gameboy.Gameboy{}
+			streams := map[int]*portaudio.Stream{}
+			for _, k := range which {
+				gbs[k] = gameboy.New(gameboy.Config{RomFilename: paths[k], DisableVideoOutput: true})
+				streams[k] = portaudio.XCurrent()
+			}
+			for f := 0; f < frames; f++ {
+				for _, k := range which {
+					gbs[k].XRunFrame(context.Background())
+				}
+			}
+			for _, k := range which {
+				gbs[k].Cleanup()
+			}
+			out := map[int][]float32{}
+			mu.Lock()
+			for _, k := range which {
+				out[k] = append([]float32{}, rec[streams[k]]...)
+			}
+			mu.Unlock()
+			if len(which) == 2 && streams[0] == streams[1] {
+				out[-1] = nil // marker: one stream for two instances
+			}
+			return out
+		}
+		solo := run([]int{0})[0]
+		pair := run([]int{0, 1})
+		if _, shared := pair[-1]; shared {
+			c.Violate("audio-stream-shared", "two instances with sound output enabled were given one output stream between them", nil)
+			return
+		}
+		n := len(solo)
+		if len(pair[0]) < n {
+			n = len(pair[0])
+		}
+		n -= 1024 // what is still queued at shutdown depends on the consumer's timing
+		if n < 2000 {
+			c.Violate("audio-pair-too-short", fmt.Sprintf("only %d/%d floats delivered for the instance under comparison in %d frames", len(pair[0]), len(solo), frames), nil)
+			return
+		}
+		for k := 0; k < n; k++ {
+			if pair[0][k] != solo[k] {
+				c.Violate("audio-pair-differs", fmt.Sprintf("instance A's output stream differs at float %d when instance B (sound on as well) runs beside it: %v, alone %v", k, pair[0][k], solo[k]), nil)
+				return
+			}
+		}
+		c.Count("audio_pair_cases", 1)
+		c.Case(rig.Hash(pa.Hash, pb.Hash, uint64(frames)))
 	})
 }
